@@ -20,7 +20,14 @@ def shards(spec):
         out += [('Z', 'A0', sh) for sh in words.prefix_shards(SIGMA_Z, spec['Z'], 1)]
     if spec.get('CR') is not None:
         out += [('CR', 'D', sh) for sh in words.prefix_shards(SIGMA_CR, spec['CR'], 1)]
+    if spec.get('E') is not None:
+        out += [('E', 'D', sh) for sh in words.prefix_shards(SIGMA_E, spec['E'], 1)]
     return out
+
+
+# malformed / cut-off environment tokens: \begin and \end without a readable {name}, next to whole ones
+SIGMA_E = ['a', ' ', '{', '}', '$', '\\begin', '\\end', '\\begin{', '\\end {', 'itemize', '\\begin{itemize}', '\\end{itemize}',
+           '\\item', '\\begin{a$b', '\\textbf']
 
 
 # carriage returns / CRLF line ends / tabs next to comments, macros, paragraph breaks and groups
@@ -46,6 +53,9 @@ def iter_shard(spec, shard):
     elif space == 'CR':
         for w in words.iter_shard(SIGMA_CR, spec['CR'], sh):
             yield words.render(SIGMA_CR, w), 'D'
+    elif space == 'E':
+        for w in words.iter_shard(SIGMA_E, spec['E'], sh):
+            yield words.render(SIGMA_E, w), 'D'
     elif space == 'A':
         head = '\\' + x
         for w in words.iter_shard(SIGMA_X, spec['A'], sh):
@@ -67,4 +77,6 @@ def describe(spec):
                      'without unknown-macro fallback' % spec['Z'])
     if spec.get('CR') is not None:
         parts.append('all words of length <= %d over 13 lexemes with carriage return, CRLF and tab (default context)' % spec['CR'])
+    if spec.get('E') is not None:
+        parts.append('all words of length <= %d over %d lexemes with cut-off \\begin / \\end tokens (default context)' % (spec['E'], len(SIGMA_E)))
     return '; '.join(parts)
